@@ -32,13 +32,13 @@ def levels(tier):
              "defaults": ["never"], "pool": POOL[:3]},
         ]
     return [
-        {"name": "n2", "n": 2, "alphabet": alpha, "links_batch": 2, "rule_patterns": ["path1", "path2", "subdomain"], "defaults": ["domain", "never", "path1"]},
-        {"name": "n3", "n": 3, "alphabet": alpha, "links_batch": 1, "rule_patterns": ["path1"], "defaults": ["domain", "never"]},
-        {"name": "n4", "n": 4, "alphabet": ["page", "we", "addprefix", "moveprefix"], "defaults": ["never"], "pool": POOL[:3]},
-        {"name": "wide-n3", "n": 3, "prelude": [["page", 1, False], ["we", [[0, 3]]], ["page", 2, False]], "alphabet": ["we", "addprefix", "page", "moveprefix"],
-         "defaults": ["never"], "pool": WIDE},
         {"name": "chain-n2", "n": 2, "prelude": [["we", [[0, 1]]], ["we", [[0, 2], [0, 3]]]], "alphabet": ["we", "addprefix", "page", "moveprefix", "delwe"],
          "defaults": ["never"], "pool": POOL},
+        {"name": "n2-wide", "n": 2, "alphabet": alpha, "links_batch": 1, "rule_patterns": ["path1"], "defaults": ["domain", "never"]},
+        {"name": "wide-n3", "n": 3, "prelude": [["page", 1, False], ["we", [[0, 3]]], ["page", 2, False]], "alphabet": ["we", "addprefix", "page"],
+         "defaults": ["never"], "pool": WIDE},
+        {"name": "n4", "n": 4, "alphabet": ["page", "we", "addprefix", "moveprefix"], "defaults": ["never"], "pool": POOL[:3]},
+        {"name": "n3-wide", "n": 3, "alphabet": ["page", "we", "addprefix", "moveprefix", "delwe"], "defaults": ["never"]},
     ]
 
 
